@@ -8,6 +8,7 @@ import (
 	"os"
 	"path/filepath"
 	"regexp"
+	"sort"
 	"strings"
 
 	"github.com/ddddddO/gtree"
@@ -68,6 +69,14 @@ func runDryPredictsReal(c Case) []Diff {
 	// the same dry run with the massive option gives the same verdict about the names
 	var mrep lockedBuf
 	mderr := gtree.OutputFromMarkdown(&mrep, bytes.NewReader(c.doc()), gtree.WithDryRun(), gtree.WithFileExtensions(c.Exts), gtree.WithMassive(context.Background()))
+	if mderr == nil && derr == nil {
+		a, b := splitLines(rep.Bytes()), splitLines(mrep.finish())
+		sort.Strings(a)
+		sort.Strings(b)
+		if strings.Join(a, "") != strings.Join(b, "") {
+			d = append(d, Diff{What: "massive dry-run report differs from the simple one (as multisets of lines)", Real: hx(mrep.finish()), Model: hx(rep.Bytes())})
+		}
+	}
 	if nameErr(errClass(classify(mderr))) != nameErr(dcls) {
 		d = append(d, Diff{What: "dry run with the massive option disagrees with the simple dry run about the names", Real: "massive dry=" + classify(mderr), Model: "simple dry=" + classify(derr)})
 	}
